@@ -13,9 +13,7 @@ namespace Xsel.Syntax
 
 /-! ### the expansion -/
 
-def isDigitsTok : Tok → Bool
-  | .digits _ => true
-  | _ => false
+-- `isDigitsTok` (is the token a `digits` token?) is defined in Xsel/Lex.lean
 
 def headDigits : Toks → Bool
   | t :: _ => isDigitsTok t.tok
